@@ -240,8 +240,8 @@ def run(ctx):
         # every interleaving of one REMOVE job (two nodes to answer) with abort / duplicate / error
         runs.append(("C22_gen_fine3", "fine", dict(mode="bfs", timeout=900), {}, True))
         runs.append(("C22_gen_sync4", "sync", dict(mode="bfs", timeout=1500), {}, True))
-        runs.append(("C22_gen_sync7", "sync", dict(mode="simulate", num=3000, depth=200, timeout=900), {}, True))
-        runs.append(("C22_gen_fine", "fine", dict(mode="simulate", num=4000, depth=26, timeout=900), {}, True))
+        runs.append(("C22_gen_sync7", "sync", dict(mode="simulate", num=2000, depth=200, timeout=900), {}, True))
+        runs.append(("C22_gen_fine", "fine", dict(mode="simulate", num=2500, depth=26, timeout=900), {}, True))
     else:
         runs.append(("C22_gen_sync7", "sync", dict(mode="simulate", num=250, depth=200, timeout=600), {}, True))
         runs.append(("C22_gen_fine", "fine", dict(mode="simulate", num=250, depth=26, timeout=600), {}, True))
